@@ -3,6 +3,9 @@ verdict/evidence/known-findings protocol.  Standard library only."""
 import os, sys, json, re, time, subprocess, tempfile, shutil, hashlib, random
 
 VERIF = os.path.dirname(os.path.dirname(os.path.abspath(__file__)))
+# where evidence/ and replays/ are written: /verif, except when a builder's aid (tools/mutate.sh) runs a check against a patched
+# scratch copy of the repository - those runs must not overwrite the evidence of the runs on /repo itself
+OUTDIR = os.environ.get('VERIF_OUT') or VERIF
 SPEC = os.path.join(VERIF, 'spec')
 REPO = os.environ.get('VERIF_REPO', '/repo')
 JAR = '/opt/veriftools/tla/tla2tools.jar:/opt/veriftools/tla/CommunityModules-deps.jar'
@@ -392,7 +395,7 @@ class Check(object):
             print('KNOWN-FINDING: property=%s %s [%s] (%s)' % (self.pid, f['what'], f['id'],
                   '%d cases this run' % n if n else 'not exercised by this run'))
         cov['known_findings_fired'] = sorted(self.known_hits)
-        rdir = os.path.join(VERIF, 'replays', self.pid)
+        rdir = os.path.join(OUTDIR, 'replays', self.pid)
         paths = []
         for ks, v in sorted(self.violations.items()):
             os.makedirs(rdir, exist_ok=True)
@@ -405,9 +408,9 @@ class Check(object):
         ev = {'property_id': self.pid, 'tier': self.tier, 'seed': self.seed, 'level': 'model_checking',
               'coverage': cov, 'assumptions': self.assumptions, 'wall_s': round(time.time() - self.t0, 2),
               'violations': len(self.violations)}
-        os.makedirs(os.path.join(VERIF, 'evidence'), exist_ok=True)
+        os.makedirs(os.path.join(OUTDIR, 'evidence'), exist_ok=True)
         name = self.pid + ('.replay' if getattr(self, 'is_replay', False) else '') + '.json'
-        with open(os.path.join(VERIF, 'evidence', name), 'w') as fo:
+        with open(os.path.join(OUTDIR, 'evidence', name), 'w') as fo:
             json.dump(ev, fo, indent=1, sort_keys=True)
         print('%s %s: states=%d traces=%d evaluations=%d violations=%d known=%d wall=%.1fs' % (
             self.pid, self.tier, cov['states'], cov['traces_validated_against_impl'], cov['evaluations'],
